@@ -12,6 +12,8 @@ def dispatch : P String := do
     | "des" => compDes
     | "variant" => compVariant
     | "surv" => compSurv
+    | "repl" => compRepl
+    | "fitsort" => compFitsort
     | _ => pure s!"err unknown component {comp}"
   return s!"{seq} {comp} {body}"
 
